@@ -1,13 +1,31 @@
 """Re-run every seeded defect in /verif/seeded against the checks recorded for it and write seeded/RESULTS.md.
-usage: seed_table.py [id ...]   (default: all)"""
+usage: seed_table.py [id ...]        re-run the given ids (default: all) and write the table for them
+       seed_table.py --collect       only write seeded/RESULTS.md from the `last_run` recorded in every meta.json
+(parallel re-run:  ls seeded | grep -v RESULTS | xargs -P 4 -n 1 /venv/bin/python harness/seed_table.py --one ; then --collect)"""
 import os, sys, json, subprocess, re
 VERIF = os.path.dirname(os.path.dirname(os.path.abspath(__file__)))
 SD = os.path.join(VERIF, "seeded")
-ids = sys.argv[1:] or sorted(d for d in os.listdir(SD) if os.path.isdir(os.path.join(SD, d)))
+args = [a for a in sys.argv[1:] if not a.startswith("--")]
+collect, one = "--collect" in sys.argv, "--one" in sys.argv
+ids = args or sorted(d for d in os.listdir(SD) if os.path.isdir(os.path.join(SD, d)))
 rows = []
 for sid in ids:
     d = os.path.join(SD, sid)
+    if not os.path.exists(os.path.join(d, "meta.json")):
+        continue
     meta = json.load(open(os.path.join(d, "meta.json")))
+    if collect:
+        lr = meta.get("last_run")
+        if not lr:
+            out = meta.get("confirmed", {}).get("output", "")
+            demo = re.search(r"demo: mutant rc=(\d+) clean rc=(\d+)", out)
+            verdicts = {}
+            for c in meta.get("checks", [meta.get("property")]):
+                m = re.search(r"^\[%s\] rc=(\d+)(.*)$" % c, out, re.M)
+                verdicts[c] = ("VIOLATION" + (" (no-failing-input-found)" if m and "no-failing-input-found" in m.group(2) else "")) if m and m.group(1) == "1" else ("silent" if m and m.group(1) == "0" else "error")
+            lr = {"demo_mutant_rc": demo and int(demo.group(1)), "demo_clean_rc": demo and int(demo.group(2)), "verdicts": verdicts}
+        rows.append((sid, meta.get("property"), (meta.get("needs_to_manifest") or "")[:160].replace("\n", " ").replace("|", "/"), lr["verdicts"], lr))
+        continue
     checks = meta.get("checks")
     if not checks:
         m = re.search(r"muttest.py seeded/\S+ (.*?)  \(", meta.get("confirmed", {}).get("ran_here", ""))
@@ -26,6 +44,8 @@ for sid in ids:
     json.dump(meta, open(os.path.join(d, "meta.json"), "w"), indent=1)
     rows.append((sid, meta.get("property"), meta.get("needs_to_manifest", "")[:160].replace("\n", " ").replace("|", "/"), verdicts, meta["last_run"]))
     print(sid, verdicts, flush=True)
+if one:
+    sys.exit(0)
 with open(os.path.join(SD, "RESULTS.md"), "w") as f:
     f.write("# Seeded defects and what the checks report on them\n\nEach row: `harness/muttest.py seeded/<id> <checks>` — scratch copy of /repo + patch; the demo must fail on the mutant and pass on /repo; checks run with VERIF_REPO=<copy>.\n\n")
     f.write("| id | property | needs, to manifest | demo (mutant/clean rc) | checks |\n|---|---|---|---|---|\n")
